@@ -178,6 +178,9 @@ class LoopMixin:
         for cl, f in inv_formula(k + 1):
             self.oblige('invariant-step', f'{name}: {cl.name} is preserved by one iteration', f,
                         self.ct_props(cl.name))
+        fh = getattr(self, 'frame_hook', None)
+        if fh is not None:
+            fh()                            # the writes of this generic iteration obey the frame as well
         raise PathEnd()
 
     def frame_env(self, fr: Frame) -> Dict[str, Any]:
